@@ -6,9 +6,11 @@ From Coq Require Import String.
 From Coq Require Import List NArith Bool.
 From Wbxml Require Import Model.Codec Model.TablesDefs Gen.TablesData Model.Parser Model.Spec Model.TreeBuild Model.TreeConv
      Proofs.ParserDepth Proofs.ParserProofsDoc Proofs.ParserProofsTyped Proofs.ParserProofsWv
-     Proofs.TreeBuildProofs Proofs.TreeBuildProofs2 Proofs.TreeBuildProofs3 Proofs.TreeBuildEmbed Proofs.TreeRoundTrip.
+     Proofs.TreeBuildProofs Proofs.TreeBuildProofs2 Proofs.TreeBuildProofs3 Proofs.TreeBuildEmbed Proofs.TreeRoundTrip
+     Proofs.TreeRoundTripWide.
 From Wbxml Require Model.EncXml Model.XmlRead Proofs.EncXmlProofs Proofs.EncXmlIndent.
 From Wbxml Require Model.EncWbxml Model.TreeNorm Proofs.EncWbxmlProofs Proofs.EncWbxmlSerialize Proofs.EncWbxmlDenote.
+From Wbxml Require Model.EncWbxmlEvents Proofs.EncWbxmlAbs Proofs.EncWbxmlDenote2 Proofs.EncWbxmlTblOk Proofs.EncWbxmlDenote3.
 Import ListNotations.
 Local Open Scope N_scope.
 
@@ -164,6 +166,73 @@ Example C03b_ex_roundtrip :
   tree_from_wbxml [L] 9999 0 1 [3; 4; 106; 0; 96; 3; 97; 0; 1]
     = BOk (mk_wtree 9999 106 (Some (TElt (TagTok 0 32 [112]) [] [TText [97]]))).
 Proof. cbv zeta. repeat split; vm_compute; reflexivity. Qed.
+
+(* the tree builder does not see into how many pieces a text is cut: on a state whose open elements are ordinary (no
+   element named "Data", no CDATA section open: sinv) the fold gives the same state for an event list and for its
+   merge_chars normal form (adjacent character-data events concatenated) - wbxml_tree_add_node joins a text node to a
+   preceding text node.  This is what lets the string-table axis of C06 (events known modulo merge_chars) through. *)
+Theorem C03b_builder_ignores_text_pieces : forall tbl levels evs st,
+  no_data evs = true -> sinv st ->
+  build_from tbl levels evs st = build_from tbl levels (EncWbxmlEvents.merge_chars evs) st.
+Proof. exact build_merge. Qed.
+Print Assumptions C03b_builder_ignores_text_pieces.
+
+(* C03b (7) — the same round trip on the WIDE fragment of C06 (C06_strict_decoding_wide / strict_decode_of_encoding3):
+   attributes (token starts with or without value prefix, literal names), literal tags, string table ON or OFF, public
+   id as number or as string.  PARTIAL in: the hypotheses of the encoder's theorem (tree_ok3: names / attribute starts
+   are the language's rows or unknown to it, octets 1..255, depth <= 1000, no CDATA / PI / tree nodes; plain_env: no
+   SyncML / Wireless-Village / DRM / OTA special treatment; no extension table), output below 4 GiB, and no element
+   named "Data".  tnw = tn plus tag_event for literal tags and attr_event for attributes (dropped, as the encoder does,
+   when the language has no attribute table); tnw_tn: on the narrow fragment it IS tn. *)
+Theorem C03b_roundtrip_wide_partial : forall tblb TBL L o tag attrs ch bs,
+  let e := EncWbxml.enc_env (EncWbxmlDenote2.to_blang L) o in
+  EncWbxmlAbs.plain_env e = true -> EncWbxmlDenote2.vals_ok L = true -> l_exts L = None ->
+  EncWbxmlTblOk.tree_ok3 L 0 (EncWbxml.NElt tag attrs ch) = true ->
+  find (fun x => l_id x =? l_id L) TBL = Some L -> l_id L <> 0 ->
+  EncWbxml.o_version o < 4 -> EncWbxml.header_public_id e < 4294967296 -> EncWbxml.header_public_id e <> 0 ->
+  (match EncWbxmlAbs.header_pid e with Some p => EncWbxmlDenote2.okb p = true | None => True end) ->
+  EncWbxml.len bs < 4294967296 ->
+  EncWbxml.enc_wbxml tblb (EncWbxmlDenote2.to_blang L) o [EncWbxml.NElt tag attrs ch] = EncWbxml.EOk bs ->
+  no_data (EncWbxmlDenote3.doc_events3 L e (EncWbxml.o_keep_ws o) (EncWbxml.NElt tag attrs ch)) = true ->
+  forall ef, tree_from_wbxml TBL (l_id L) 0 ef bs
+             = BOk (mk_wtree (l_id L) 106
+                     (hd_error (flat_map (tnw (EncWbxml.has_attr_table e))
+                                         (TreeNorm.norm (EncWbxml.o_keep_ws o) [EncWbxml.NElt tag attrs ch])))).
+Proof. exact roundtrip_wide. Qed.
+Print Assumptions C03b_roundtrip_wide_partial.
+
+Theorem C03b_wide_tree_on_narrow_fragment : forall wa n, EncWbxmlSerialize.frag_node n = true -> tnw wa n = tn n.
+Proof. exact tnw_tn. Qed.
+Print Assumptions C03b_wide_tree_on_narrow_fragment.
+
+(* the hypotheses are satisfiable (the example of C06's string-table axis): string table on, a text whose words go to
+   the table (the parser reports it in pieces; the tree has ONE text node), a literal element <zz>, a literal attribute *)
+Example C03b_ex_roundtrip_wide :
+  let L := mk_lang 9997 4 None None None (Some [mk_tag "p"%string 0 32 0])
+                   None (Some [mk_attr "id"%string None 0 11]) None None in
+  let o := EncWbxml.mk_opts 3 true false false in
+  let e := EncWbxml.enc_env (EncWbxmlDenote2.to_blang L) o in
+  let txt := [97; 98; 99; 100; 32; 119; 120; 121; 122] in
+  let txt2 := [97; 98; 99; 100; 32; 101; 102; 103; 104] in
+  let t := EncWbxml.NElt (EncWbxml.TagTok 0 32 0 [112]) [EncWbxml.mk_at (EncWbxml.AttrLit [113]) [97; 98; 99; 100]]
+                [EncWbxml.NElt (EncWbxml.TagLit [122; 122]) [] [EncWbxml.NText txt];
+                 EncWbxml.NElt (EncWbxml.TagTok 0 32 0 [112]) [] [EncWbxml.NText txt2]] in
+  EncWbxmlAbs.plain_env e = true /\ EncWbxmlDenote2.vals_ok L = true /\ EncWbxmlTblOk.tree_ok3 L 0 t = true /\
+  no_data (EncWbxmlDenote3.doc_events3 L e false t) = true /\
+  exists bs, EncWbxml.enc_wbxml [] (EncWbxmlDenote2.to_blang L) o [t] = EncWbxml.EOk bs /\
+    (exists evs, parse_with [L] 9997 0 (S (length bs)) bs = POk evs /\ evs <> EncWbxmlDenote3.doc_events3 L e false t) /\
+    tree_from_wbxml [L] 9997 0 1 bs
+      = BOk (mk_wtree 9997 106
+               (Some (TElt (TagTok 0 32 [112]) [(AttrLit [113], [97; 98; 99; 100])]
+                           [TElt (TagLit [122; 122]) [] [TText txt]; TElt (TagTok 0 32 [112]) [] [TText txt2]]))) /\
+    flat_map (tnw true) (TreeNorm.norm false [t])
+      = [TElt (TagTok 0 32 [112]) [(AttrLit [113], [97; 98; 99; 100])]
+              [TElt (TagLit [122; 122]) [] [TText txt]; TElt (TagTok 0 32 [112]) [] [TText txt2]]].
+Proof.
+  cbv zeta. split; [vm_compute; reflexivity|]. split; [vm_compute; reflexivity|]. split; [vm_compute; reflexivity|].
+  split; [vm_compute; reflexivity|]. eexists. split; [vm_compute; reflexivity|].
+  split; [eexists; split; [vm_compute; reflexivity|vm_compute; discriminate]|]. split; vm_compute; reflexivity.
+Qed.
 
 (* C05c, without the restriction to Data-free documents — PARTIAL only in the generator's hypotheses (node_ok_g:
    names are XML names, text is XML characters, CDATA payloads ...; properties of the document's strings that WBXML
